@@ -386,6 +386,47 @@ Section FacadeTheory.
   Proof. intros p. repeat split. Qed.
 End FacadeTheory.
 
+(* each facade method looks at ITS component only: two processors that agree on a
+   component agree on every call of the methods that use it, whatever else is configured *)
+Section FacadeTransparent.
+  Variables C S D Opt : Type.
+  Theorem facade_transparent : forall (p p' : processor C S D Opt),
+    (pr_validator C S D Opt p = pr_validator C S D Opt p' ->
+       forall d s, facade_validate C S D Opt p d s = facade_validate C S D Opt p' d s) /\
+    (pr_parser C S D Opt p = pr_parser C S D Opt p' ->
+       (forall f t s, facade_slot_index C S D Opt p f t s = facade_slot_index C S D Opt p' f t s) /\
+       (forall c o, facade_parse_claim C S D Opt p c o = facade_parse_claim C S D Opt p' c o)) /\
+    (pr_loader C S D Opt p = pr_loader C S D Opt p' ->
+       forall u, facade_load C S D Opt p u = facade_load C S D Opt p' u).
+  Proof.
+    intros p p'. split; [|split].
+    - intros H d s. unfold facade_validate. now rewrite H.
+    - intros H. split; intros; unfold facade_slot_index, facade_parse_claim; now rewrite H.
+    - intros H u. unfold facade_load. now rewrite H.
+  Qed.
+
+  (* the seeded variant C17-m: ValidateData guarded by the PARSER *)
+  Definition facade_validate_c17m (p : processor C S D Opt) (d : D) (s : S) : res unit :=
+    match pr_parser C S D Opt p with
+    | None => Err "validator-not-defined"
+    | Some _ => match pr_validator C S D Opt p with Some v => v d s | None => Panic "nil-validator" end
+    end.
+End FacadeTransparent.
+
+(* it is refuted: a processor with a validator and no parser does not get the validator's verdict,
+   and one with a parser and no validator panics *)
+Example facade_validate_c17m_refuted :
+  let v : unit -> unit -> res unit := fun _ _ => Err "verdict" in
+  let ps : parser unit unit unit := {| ps_parse_claim := fun _ _ => Ok claim_zero; ps_slot_index := fun _ _ _ => Ok 6 |} in
+  facade_validate unit unit unit unit {| pr_validator := Some v; pr_loader := None; pr_parser := None |} tt tt = Err "verdict" /\
+  facade_validate_c17m unit unit unit unit {| pr_validator := Some v; pr_loader := None; pr_parser := None |} tt tt
+    = Err "validator-not-defined" /\
+  facade_validate unit unit unit unit {| pr_validator := None; pr_loader := None; pr_parser := Some ps |} tt tt
+    = Err "validator-not-defined" /\
+  facade_validate_c17m unit unit unit unit {| pr_validator := None; pr_loader := None; pr_parser := Some ps |} tt tt
+    = Panic "nil-validator".
+Proof. repeat split; reflexivity. Qed.
+
 (* the processor configured with json.Parser: the options reach the claim builder unchanged *)
 Theorem facade_json_parser : forall O V L c f t d,
   let p := {| pr_validator := V; pr_loader := L;
